@@ -2575,13 +2575,19 @@ bool unitsAreEquivalent(const ModelPtr &model,
     return status;
 }
 
-void updateBaseUnitCount(const ModelPtr &model,
-                         std::map<std::string, double> &unitMap,
-                         double &multiplier,
-                         const std::string &uName,
-                         double uExp, int direction)
+void updateBaseUnitCountWithHistory(const ModelPtr &model,
+                                    std::map<std::string, double> &unitMap,
+                                    double &multiplier,
+                                    const std::string &uName,
+                                    double uExp, int direction,
+                                    NameList &history)
 {
     if (model->hasUnits(uName)) {
+        // Circular units references are reported elsewhere, here we must not follow them forever.
+        if (std::find(history.begin(), history.end(), uName) != history.end()) {
+            return;
+        }
+        history.push_back(uName);
         UnitsPtr u = model->units(uName);
         if (u->isBaseUnit()) {
             if (unitMap.find(uName) == unitMap.end()) {
@@ -2601,7 +2607,7 @@ void updateBaseUnitCount(const ModelPtr &model,
                 // As in Units::scalingFactor(): the exponent applies to the referenced units only, not to the multiplier or prefix.
                 multiplier += direction * uExp * (mult + convertPrefixToInt(pre));
                 if (!isStandardUnitName(ref)) {
-                    updateBaseUnitCount(model, unitMap, multiplier, ref, exp * uExp, direction);
+                    updateBaseUnitCountWithHistory(model, unitMap, multiplier, ref, exp * uExp, direction, history);
                 } else {
                     for (const auto &iter : standardUnitsList.at(ref)) {
                         unitMap.at(iter.first) += direction * (iter.second * exp * uExp);
@@ -2610,12 +2616,23 @@ void updateBaseUnitCount(const ModelPtr &model,
                 }
             }
         }
+        history.pop_back();
     } else if (isStandardUnitName(uName)) {
         for (const auto &iter : standardUnitsList.at(uName)) {
             unitMap.at(iter.first) += direction * (iter.second * uExp);
         }
         multiplier += direction * uExp * standardMultiplierList.at(uName);
     }
+}
+
+void updateBaseUnitCount(const ModelPtr &model,
+                         std::map<std::string, double> &unitMap,
+                         double &multiplier,
+                         const std::string &uName,
+                         double uExp, int direction)
+{
+    NameList history;
+    updateBaseUnitCountWithHistory(model, unitMap, multiplier, uName, uExp, direction, history);
 }
 
 void Validator::ValidatorImpl::checkUniqueResetOrders(const ModelPtr &model)
